@@ -59,4 +59,140 @@ def kCharset : Bytes := [99, 104, 97, 114, 115, 101, 116]
 /-- `clone(ps)`: the leaf's String() -/
 def withCharset (mime cs : Bytes) : Bytes := if cs.isEmpty then mime else format1 mime kCharset cs
 
+/-! ### `mime.ParseMediaType` -/
+
+def isSp (c : Nat) : Bool := c == 0x20 || c == 0x09 || c == 0x0A || c == 0x0B || c == 0x0C || c == 0x0D
+
+def trimLeft (b : Bytes) : Bytes := b.dropWhile isSp
+def trim (b : Bytes) : Bytes := ((b.dropWhile isSp).reverse.dropWhile isSp).reverse
+
+/-- `consumeToken` -/
+def consumeToken : Bytes → Bytes × Bytes
+  | [] => ([], [])
+  | c :: cs => if isTokenChar c then let (t, r) := consumeToken cs; (c :: t, r) else ([], c :: cs)
+
+/-- `checkMediaTypeDisposition` -/
+def checkType (s : Bytes) : Bool :=
+  let (typ, rest) := consumeToken s
+  if typ.isEmpty then false
+  else if rest.isEmpty then true
+  else match rest with
+    | 0x2F :: r =>
+      let (sub, rest2) := consumeToken r
+      !sub.isEmpty && rest2.isEmpty
+    | _ => false
+
+def cutSemi : Bytes → Bytes × Bytes
+  | [] => ([], [])
+  | c :: cs => if c == 0x3B then ([], c :: cs) else let (a, b) := cutSemi cs; (c :: a, b)
+
+/-- the quoted-string loop of `consumeValue` (after the opening quote); `none` = no closing quote / CR / LF -/
+def unquote : Bytes → Bytes → Option (Bytes × Bytes)
+  | [], _ => none
+  | c :: cs, acc =>
+    if c == 0x22 then some (acc.reverse, cs)
+    else if c == 0x5C then
+      match cs with
+      | d :: ds => if isTSpecial d then unquote ds (d :: acc) else unquote (d :: ds) (c :: acc)
+      | [] => unquote [] (c :: acc)
+    else if c == 0x0D || c == 0x0A then none
+    else unquote cs (c :: acc)
+
+/-- `consumeValue` : `("", v)` on failure is rendered as `none` -/
+def consumeValue (v : Bytes) : Option (Bytes × Bytes) :=
+  match v with
+  | [] => none
+  | 0x22 :: r => unquote r []
+  | _ =>
+    let (t, r) := consumeToken v
+    if t.isEmpty then none else some (t, r)
+
+/-- `consumeMediaParam` -/
+def consumeParam (v : Bytes) : Option (Bytes × Bytes × Bytes) :=
+  match trimLeft v with
+  | 0x3B :: r =>
+    let (p, r1) := consumeToken (trimLeft r)
+    if p.isEmpty then none else
+    match trimLeft r1 with
+    | 0x3D :: r2 =>
+      match consumeValue (trimLeft r2) with
+      | some (val, r3) => some (lower p, val, r3)
+      | none => none
+    | _ => none
+  | _ => none
+
+def unhex1 (c : Nat) : Option Nat :=
+  if 0x30 ≤ c && c ≤ 0x39 then some (c - 0x30)
+  else if 0x61 ≤ c && c ≤ 0x66 then some (c - 0x61 + 10)
+  else if 0x41 ≤ c && c ≤ 0x46 then some (c - 0x41 + 10)
+  else none
+
+/-- `percentHexUnescape` -/
+def pctDecode : Bytes → Option Bytes
+  | [] => some []
+  | 0x25 :: a :: b :: r =>
+    match unhex1 a, unhex1 b, pctDecode r with
+    | some x, some y, some t => some ((x * 16 + y) :: t)
+    | _, _, _ => none
+  | 0x25 :: _ => none
+  | c :: r => (pctDecode r).map (c :: ·)
+
+def splitQuote : Bytes → Option (Bytes × Bytes)
+  | [] => none
+  | c :: cs => if c == 0x27 then some ([], cs) else (splitQuote cs).map (fun (a, b) => (c :: a, b))
+
+/-- `decode2231Enc` -/
+def decode2231 (v : Bytes) : Option Bytes :=
+  match splitQuote v with
+  | none => none
+  | some (cs, r) =>
+    match splitQuote r with
+    | none => none
+    | some (_, enc) =>
+      let c := lower cs
+      if c.isEmpty then none
+      else if c != [117, 115, 45, 97, 115, 99, 105, 105] && c != [117, 116, 102, 45, 56] then none
+      else pctDecode enc
+
+inductive PErr | none | invalidParam | noType | duplicate
+  deriving Repr, DecidableEq
+
+/-- the parameter loop: `.none` with the parameters, `.invalidParam`, or `.duplicate`
+    (continuations `x*0` are not modelled) -/
+def parseParams : Nat → Bytes → List (Bytes × Bytes) → PErr × List (Bytes × Bytes)
+  | 0, _, acc => (.none, acc.reverse)
+  | fuel + 1, v, acc =>
+    let v1 := trimLeft v
+    if v1.isEmpty then (.none, acc.reverse) else
+    match consumeParam v1 with
+    | none => if trim v1 == [0x3B] then (.none, acc.reverse) else (.invalidParam, [])
+    | some (k, val, rest) =>
+      if acc.any (fun q => q.1 == k && q.2 != val) then (.duplicate, [])
+      else parseParams fuel rest ((k, val) :: acc)
+
+/-- `mime.ParseMediaType(v)`: (mediatype, params, error class).  Parameter names ending in
+    `*` are RFC 2231 single-part values and are decoded. -/
+def parse (v : Bytes) : Bytes × List (Bytes × Bytes) × PErr :=
+  let (base, rest) := cutSemi v
+  let mt := trim (lower base)
+  if !checkType mt then ([], [], .noType) else
+  match parseParams (v.length + 1) rest [] with
+  | (.invalidParam, _) => (mt, [], .invalidParam)
+  | (.duplicate, _) => ([], [], .duplicate)
+  | (_, ps) =>
+    -- keys containing '*' are RFC 2231 pieces: `name*` is a single encoded value; anything
+    -- else that is not a numbered continuation (`name*0`, not modelled) is dropped
+    let decoded := ps.filterMap fun (k, val) =>
+      if k.contains 0x2A then
+        (if k.getLast? == some 0x2A && !(k.dropLast.contains 0x2A) then
+          match decode2231 val with
+          | some d => some (k.dropLast, d)
+          | none => none
+        else none)
+      else some (k, val)
+    (mt, decoded, .none)
+
+/-- the type/subtype `Is` and `EqualsAny` compare -/
+def typeOf (v : Bytes) : Bytes := (parse v).1
+
 end Mime.MT
